@@ -22,7 +22,7 @@ from props import brokerclient_lib as L
 
 THEOREMS_FRAMING = ["C06_reassembly", "C06_partial_frame", "C06_chunking_invariance", "C06_length_limit",
                     "C06_length_limit_strict_refuted", "C06_receiver_total"]
-THEOREMS_BOOT = ["C06_bootstrap_pairing", "C06_bootstrap_unknown_id"]
+THEOREMS_BOOT = ["C06_bootstrap_pairing", "C06_bootstrap_unknown_id", "C06_bootstrap_no_crosstalk", "C06_bootstrap_cancel_keeps_entry"]
 THEOREMS_BC = ["C06_limit_closes", "C06_outcome_cause", "C06_frame_instance_refuted", "C06_success_from_received_frame", "C06_client_chunking", "C06_client_chunking_two", "C06_rxbuf_stays_irreducible",
                "C06_frame_refines_spec", "C06_no_crosstalk_refinement", "C06_spec_other_ids_untouched", "C06_reachable", "C06_exactly_once", "C06_nothing_after_fired", "C06_own_response", "C06_dlog_is_make_log",
                "C06_no_crosstalk", "C06_own_frame", "C06_data_untouched"]
@@ -66,6 +66,8 @@ def framing_part(ck, rnd, scale):
                ("req", b"\x00\x03\x00\x00\x00\x00\x00\x02"), ("data", b"\x00\x00\x00\x04\t\t\t\t"), ("lost",)],
               [("req", b"\x00\x03\x00\x00\x00\x00\x00\x01"), ("req", b"\x00\x03\x00\x00\x00\x00\x00\x01"), ("lost",), ("req", b"\x00\x03\x00\x00\x00\x00\x00\x05"), ("lost",),
                ("data", b"\x00\x00\x00\x04\x00\x00\x00\x01")]]
+    bfixed.append([("req", b"\x00\x03\x00\x00\x00\x00\x00\x01"), ("req", b"\x00\x03\x00\x00\x00\x00\x00\x02"), ("cancel", 0),
+                   ("data", b"\x00\x00\x00\x05\x00\x00\x00\x01A"), ("data", b"\x00\x00\x00\x05\x00\x00\x00\x02B"), ("data", b"\x00\x00\x00\x04\x00\x00\x00\x01")])
     for evs in bfixed + [F.gen_bootstrap_case(rnd) for _ in range(500 * scale)]:
         tr, per_event, reqs = F.impl_bootstrap(evs)
         cases.append(F.case_bootstrap(evs))
@@ -74,14 +76,32 @@ def framing_part(ck, rnd, scale):
         ck.hist("bootstrap_histories")
         for thm, msg in F.monitor_bootstrap(evs, per_event, reqs):
             ck.violation({"kind": "monitor: real KafkaBootstrapProtocol contradicts the theorem", "theorem": thm, "message": msg,
-                          "bootstrap_events": [[e[0]] + ([list(e[1])] if len(e) > 1 else []) for e in evs], "replay_op": "boot"})
+                          "bootstrap_events": [[e[0]] + ([list(e[1])] if len(e) > 1 and e[0] != "cancel" else list(e[1:])) for e in evs], "replay_op": "boot"})
     diffs, mo = ck.correspond("framing", "Model.Framing", cases, impl, "KafkaBootstrapProtocol history vs Model.Framing.brun",
                               nontrivial=lambda c, o: 2 in o and 1 in o, describe=describe)
     if diffs and not ck.violations:
         i = diffs[0]
         ck.violation({"kind": "correspondence broken", "correspondence": "corr:framing:brun", "theorems_no_longer_tied": THEOREMS_BOOT,
-                      "bootstrap_events": [[e[0]] + ([list(e[1])] if len(e) > 1 else []) for e in meta[i]], "impl": impl[i], "model": mo[i],
+                      "bootstrap_events": [[e[0]] + ([list(e[1])] if len(e) > 1 and e[0] != "cancel" else list(e[1:])) for e in meta[i]], "impl": impl[i], "model": mo[i],
                       "replay_op": "boot"}, no_input=True)
+
+    # ---- bootstrap protocol with user errbacks that issue another request at once (e.g. from inside connectionLost's
+    #      loop): outside the model, monitored only - every Deferred fires exactly once, also the re-entrantly issued ones
+    fixed_h = [([("req", b"\x00\x03\x00\x00\x00\x00\x00\x01"), ("req", b"\x00\x03\x00\x00\x00\x00\x00\x02"), ("lost",)],
+                {0: b"\x00\x03\x00\x00\x00\x00\x00\x09", 1: b"\x00\x03\x00\x00\x00\x00\x00\x0a"})]
+    for i in range(200 * scale + len(fixed_h)):
+        if i < len(fixed_h):
+            evs, hooks = fixed_h[i]
+        else:
+            evs = F.gen_bootstrap_case(rnd)
+            hooks = {h: bytes([0, 3, 0, 0]) + struct.pack(">i", 5000 + h) for h in range(12) if rnd.random() < 0.5}
+        tr, per_event, reqs = F.impl_bootstrap(evs, hooks)
+        ck.hist("bootstrap_histories_with_reentrant_errbacks")
+        for thm, msg in F.monitor_bootstrap(evs, per_event, reqs):
+            ck.violation({"kind": "monitor: real KafkaBootstrapProtocol with an errback that calls request() again", "theorem": thm, "message": msg,
+                          "bootstrap_events": [[e[0]] + ([list(e[1])] if len(e) > 1 and e[0] != "cancel" else list(e[1:])) for e in evs],
+                          "bootstrap_hooks": {str(k): list(v) for k, v in hooks.items()}, "replay_op": "boot"})
+            break
 
     # ---- sendString
     bodies = [b"", b"a", bytes(range(256)), bytes(255), bytes(256), bytes(257), bytes(65536 + 3)]
@@ -187,8 +207,9 @@ def replay(rp):
             ok = ok and tr == rp["model"]
         return 0 if ok else 1
     if op == "boot":
-        evs = [tuple([e[0]] + ([bytes(e[1])] if len(e) > 1 else [])) for e in rp["bootstrap_events"]]
-        tr, per_event, reqs = F.impl_bootstrap(evs)
+        evs = [tuple([e[0]] + ([e[1]] if e[0] == "cancel" else ([bytes(e[1])] if len(e) > 1 else []))) for e in rp["bootstrap_events"]]
+        hooks = {int(k): bytes(v) for k, v in rp.get("bootstrap_hooks", {}).items()}
+        tr, per_event, reqs = F.impl_bootstrap(evs, hooks)
         for e, o in zip(evs, per_event):
             print("  %r -> %r" % (e, o))
         bad = F.monitor_bootstrap(evs, per_event, reqs)
